@@ -22,6 +22,15 @@
  *    is exactly one section long by its own header, no more octets out than in.
  * The reference header code below is written from the ISO syntax and shares nothing with
  * the stand-in <bitstream/mpeg/psi.h>.
+ *
+ * Named exclusion "unflagged-loss" (constructed only with VP_NO_EXCLUDE): payloads lost while
+ * the next delivered payload carries NO discontinuity attribute.  The merger trusts that
+ * attribute and, once synchronised, only strips the pointer_field: the stale section
+ * swallows the sections starting at the next unit start.  ts_decaps flags every loss it can
+ * detect, so this is outside what the callers produce (a loss of exactly 16 packets, or a
+ * packet with transport_error_indicator, are the only ways); rule then: sections complete
+ * before the loss exact, sections starting at the next unit start or later all output, at
+ * most one stale block in front of them.  See pending/C16-merge-unit-start-resync.patch.
  */
 #include "C16_fixture.h"
 #include "upipe-ts/upipe_ts_psi_merge.h"
@@ -66,6 +75,9 @@ struct ctx {
     int cur, o; bool inprog;
     uint32_t classes; uint64_t hash;
     struct c16_probe probe; struct c16_sink sink; unsigned seq;
+    /* excluded pattern "loss without the discontinuity attribute" (only with VP_NO_EXCLUDE) */
+    bool unflagged; int ul_at, ul_m, ul_j;
+    int nrec_before[MAXPAY + 1];
 };
 
 #define R(...) do { if (c->render) vp_render(c->rep, __VA_ARGS__); } while (0)
@@ -226,6 +238,19 @@ static bool match_outputs(struct ctx *c, int *cand, int ncand)
     return f[m][ncand];
 }
 
+/* every block in [from, to) is exactly one section long by its own header */
+static void check_self_consistent(struct ctx *c, int from, int to)
+{
+    for (int i = from; i < to && !c->ret; i++) {
+        struct c16_rec *r = &c->sink.rec[i];
+        if (r->len < 3) FAIL("C16/merge/not-a-section", "output %d has %zu octets: shorter than a section header", i, r->len);
+        else if (r->data[0] == 0xff) FAIL("C16/merge/not-a-section", "output %d starts with 0xff (stuffing output as a section)", i);
+        else if (ref_section_length(r->data) > 4093) FAIL("C16/merge/not-a-section", "output %d announces section_length %d > 4093", i, ref_section_length(r->data));
+        else if ((size_t)ref_section_length(r->data) + 3 != r->len)
+            FAIL("C16/merge/not-a-section", "output %d has %zu octets but its header announces section_length %d", i, r->len, ref_section_length(r->data));
+    }
+}
+
 static struct uref *build_payload(struct ctx *c, struct pay *p, struct ubuf *arena, size_t arena_off)
 {
     struct ubuf *u = NULL;
@@ -368,9 +393,26 @@ static int run(const uint8_t *tape, size_t len, struct vp_report *rep, unsigned 
     /* ---- events ---- */
     if (events && c->npay) {
         int ne = tp_u8(&c->t) % 3;
+        int nbad = 0;
+        for (int i = 0; i < c->nsec; i++) if (c->sec[i].kind == K_BADLEN || c->sec[i].kind == K_SHORTSYNTAX) nbad++;
         for (int e = 0; e < ne; e++) {
             uint8_t k = tp_u8(&c->t);
             int at = tp_u8(&c->t) % c->npay;
+            if (e == 0 && (k & 1) && (k & 0x80) && nbad == 0) {
+                /* EXCLUSION unflagged-loss: payloads lost without flow.discontinuity on the next
+                 * one (ts_decaps flags every loss it can see; see the report). Constructed only
+                 * with VP_NO_EXCLUDE, then alone in the case and judged by its own rule. */
+                if (!(flags & VP_NO_EXCLUDE)) rep->excluded++;
+                else {
+                    c->unflagged = true; c->ul_at = at; c->ul_m = 1 + (k >> 1) % 3;
+                    for (int q = at; q < at + c->ul_m && q < c->npay; q++) c->pay[q].dropped = true;
+                    c->ul_j = c->npay;
+                    for (int q = at + c->ul_m; q < c->npay; q++) if (c->pay[q].pusi) { c->ul_j = q; break; }
+                    c->hash = vp_hash_mix(c->hash, 0x280000 + at * 4 + c->ul_m);
+                    CLS(CL_DROP);
+                    break;
+                }
+            }
             if (k & 1) {
                 int m = 1 + (k >> 1) % 3;
                 for (int q = at; q < at + m && q < c->npay; q++) c->pay[q].dropped = true;
@@ -382,7 +424,7 @@ static int run(const uint8_t *tape, size_t len, struct vp_report *rep, unsigned 
             }
         }
         /* ts_decaps flags the first payload delivered after a loss */
-        for (int q = 0; q < c->npay; q++) {
+        for (int q = 0; q < c->npay && !c->unflagged; q++) {
             if (!c->pay[q].dropped) continue;
             c->pay[q].disc = false;
             if (q + 1 < c->npay && !c->pay[q + 1].dropped) c->pay[q + 1].disc = true;
@@ -446,7 +488,8 @@ static int run(const uint8_t *tape, size_t len, struct vp_report *rep, unsigned 
     /* ---- rendering of the case ---- */
     if (c->render) {
         R("C16/merge mode=%s build=%d hold=%d leadin=%d mgr=%d sections=%d payloads=%d\n",
-          fuzz ? "fuzz" : events ? "events" : "valid", policy, hold, leadin, mgrcfg, c->nsec, c->npay);
+          fuzz ? "fuzz" : c->unflagged ? "UNFLAGGED-LOSS (excluded pattern)" : events ? "events" : "valid", policy, hold, leadin, mgrcfg, c->nsec, c->npay);
+        if (c->unflagged) R("  payloads %d..%d are lost and the next one carries no discontinuity attribute; next unit start: payload %d\n", c->ul_at, c->ul_at + c->ul_m - 1, c->ul_j);
         for (int i = 0; i < c->nsec; i++) {
             struct sec *s = &c->sec[i];
             static const char *const kn[] = { "section", "FORBIDDEN-LENGTH", "SHORT-LONG-SYNTAX", "lead-in" };
@@ -483,6 +526,7 @@ static int run(const uint8_t *tape, size_t len, struct vp_report *rep, unsigned 
 
     for (int q = 0; q < c->npay && !c->ret; q++) {
         struct pay *p = &c->pay[q];
+        c->nrec_before[q] = c->sink.nrec;
         c->hash = vp_hash_mix(c->hash, (p->n << 8) | (p->pusi << 3) | (p->disc << 2) | (p->dropped << 1) | (p->build == C16_BUILD_PIECES ? p->ncuts << 16 : 0) | (p->build << 4));
         if (p->dropped) { R("  #%d (lost) n=%d\n", q, p->n); continue; }
         if (p->build == C16_BUILD_TSPACKET) CLS(CL_WINDOW);
@@ -528,6 +572,37 @@ static int run(const uint8_t *tape, size_t len, struct vp_report *rep, unsigned 
         }
         if (!c->ret && c->sink.nrec > want)
             FAIL("C16/merge/extra", "%d blocks output for %d sections (output %d has %zu octets)", c->sink.nrec, want, want, c->sink.rec[want].len);
+    } else if (!c->ret && c->unflagged) {
+        /* before the loss: exact; from the next unit start on: every section starting there,
+         * exact, preceded by at most one block (a stale section may complete by coincidence);
+         * in between: anything that is one section long */
+        c->nrec_before[c->npay] = c->sink.nrec;
+        int k = 0, pre = c->nrec_before[c->ul_at];
+        for (int i = 0; i < c->nsec && !c->ret; i++) {
+            struct sec *s = &c->sec[i];
+            if (s->kind != K_VALID || s->ep >= c->ul_at) continue;
+            if (k >= pre || c->sink.rec[k].len != (size_t)s->len || memcmp(c->sink.rec[k].data, s->b, s->len))
+                FAIL("C16/merge/missing", "section S%d, complete before the loss, is not output %d", i, k);
+            k++;
+        }
+        if (!c->ret && k != pre) FAIL("C16/merge/extra", "%d blocks output before the loss for %d complete sections", pre, k);
+        int n_after = 0;
+        for (int i = 0; i < c->nsec; i++) if (c->sec[i].kind == K_VALID && c->sec[i].sp >= c->ul_j) n_after++;
+        int first = c->sink.nrec - n_after;
+        if (!c->ret && (first < c->nrec_before[c->ul_j] || first > c->nrec_before[c->ul_j] + 1))
+            FAIL("C16/merge/unflagged-loss-resync", "payloads %d..%d lost without discontinuity attribute; next unit start in payload %d; %d sections start there or later but %d blocks were output from that payload on",
+                 c->ul_at, c->ul_at + c->ul_m - 1, c->ul_j, n_after, c->sink.nrec - c->nrec_before[c->ul_j]);
+        k = first;
+        for (int i = 0; i < c->nsec && !c->ret; i++) {
+            struct sec *s = &c->sec[i];
+            if (s->kind != K_VALID || s->sp < c->ul_j) continue;
+            if (c->sink.rec[k].len != (size_t)s->len || memcmp(c->sink.rec[k].data, s->b, s->len))
+                FAIL("C16/merge/unflagged-loss-resync", "payloads %d..%d lost without discontinuity attribute; section S%d starts at the unit start of payload %d or later but output %d is not it",
+                     c->ul_at, c->ul_at + c->ul_m - 1, i, c->ul_j, k);
+            k++;
+        }
+        if (!c->ret) check_self_consistent(c, pre, first);
+        if (n_after) CLS(CL_RESYNC);
     } else if (!c->ret && events) {
         int cand[MAXSEC], nc = 0;
         for (int i = 0; i < c->nsec; i++) if (c->sec[i].status != ST_NEVER) cand[nc++] = i;
@@ -560,15 +635,8 @@ static int run(const uint8_t *tape, size_t len, struct vp_report *rep, unsigned 
         }
     } else if (!c->ret && fuzz) {
         size_t out = 0;
-        for (int i = 0; i < c->sink.nrec && !c->ret; i++) {
-            struct c16_rec *r = &c->sink.rec[i];
-            out += r->len;
-            if (r->len < 3) FAIL("C16/merge/not-a-section", "output %d has %zu octets: shorter than a section header", i, r->len);
-            else if (r->data[0] == 0xff) FAIL("C16/merge/not-a-section", "output %d starts with 0xff (stuffing output as a section)", i);
-            else if (ref_section_length(r->data) > 4093) FAIL("C16/merge/not-a-section", "output %d announces section_length %d > 4093", i, ref_section_length(r->data));
-            else if ((size_t)ref_section_length(r->data) + 3 != r->len)
-                FAIL("C16/merge/not-a-section", "output %d has %zu octets but its header announces section_length %d", i, r->len, ref_section_length(r->data));
-        }
+        for (int i = 0; i < c->sink.nrec; i++) out += c->sink.rec[i].len;
+        check_self_consistent(c, 0, c->sink.nrec);
         if (!c->ret && out > (size_t)in_octets) FAIL("C16/merge/invented", "%zu octets output for %d octets input", out, in_octets);
     }
     if (!c->ret && hold) {
